@@ -282,6 +282,15 @@ def max_occurrence_rule(prog: Program, rep, RID: str):
         raise AnalysisError(f"max_occurrence: contribution `{norm(val)}` not recognised")
 
 
+def _quantified_form_guard(f):
+    """the greedy rules read the coverage check as a loop over the constraints with an early `return False`; a check written
+    with any() / all() / next() over a predicate is the same code in a form they do not read: say so instead of judging"""
+    for c in calls_in(f.node, nested=True):
+        if isinstance(c.func, ast.Name) and c.func.id in ("any", "all", "next") and "max_occurrence(" in norm(c):
+            raise AnalysisError("kFlowDecomp._get_solution_with_greedy: the coverage check of the greedy paths is written with a quantifier "
+                                f"(`{c.func.id}(...)`) instead of a loop over self.subpath_constraints with an early `return False`: idiom not recognised")
+
+
 def greedy_units(prog: Program, rep, RID: str):
     """The coverage test of the greedy paths compares like with like: when the coverage is counted in edges (no length
     coverage given) every covered edge counts 1 - the edge lengths must not be passed to max_occurrence; when it is counted in
@@ -289,6 +298,7 @@ def greedy_units(prog: Program, rep, RID: str):
     from rules.common import canonical_calls, expr_cases
     from sa import boolnf as B
     f = prog.own_method("kFlowDecomp", "_get_solution_with_greedy")
+    _quantified_form_guard(f)
     tests = [(t[5:], c, ln) for t, c, ln in canonical_calls(f.node) if t.startswith("test ") and "max_occurrence(" in t]
     key = "kFlowDecomp._get_solution_with_greedy:units"
     if len(tests) != 1:
@@ -330,6 +340,7 @@ def greedy_units(prog: Program, rep, RID: str):
 
 def greedy_rejection(prog: Program, rep, RID: str):
     f = prog.own_method("kFlowDecomp", "_get_solution_with_greedy")
+    _quantified_form_guard(f)
     # the constraint loop: for subpath in self.subpath_constraints: ... if gu.max_occurrence(...) < L * c: return False
     loop = None
     for n in walk_no_nested(f.node):
